@@ -20,19 +20,67 @@ def tags_of(check_text):
 
 
 def run_layer_b(prop, spec):
-    """-> (rows, report) rows: list of dict(name, kind, result)"""
+    """contract harnesses run on a copy of lexgen_util carrying the contract attributes; plain harnesses on a copy without them
+    (Kani checks a function's contract clauses in every harness that calls it, which would blur which assertion failed).
+    -> (rows, report, cmd) rows: list of dict(name, kind, result, output, crate)"""
+    import concurrent.futures as cf
     names = [h for h, (props, _) in spec.HARNESSES.items() if prop in props]
     if not names:
         return [], [], None
-    d = os.path.join(C.scratch(), "kani_lexgen_util")
-    report = K.splice_lexgen_util(spec, d)
-    res, outs, cmd, wall = K.run_cargo_kani(d, names, timeout=2400)
+    contract_names = [h for h in names if spec.HARNESSES[h][1] == "contract"]
+    plain_names = [h for h in names if spec.HARNESSES[h][1] != "contract"]
+    dc = os.path.join(C.scratch(), "kani_lexgen_util_contracts")
+    dp = os.path.join(C.scratch(), "kani_lexgen_util_plain")
+    report = K.splice_lexgen_util(spec, dc, with_contracts=True)
+    K.splice_lexgen_util(spec, dp, with_contracts=False)
+    flags = ("-Z", "unstable-options", "--no-assertion-reach-checks")
+
+    def go(args):
+        d, hs = args
+        return K.run_cargo_kani(d, hs, timeout=2400, extra_flags=flags) if hs else ({}, {}, "", 0)
+
+    with cf.ThreadPoolExecutor(max_workers=2) as ex:
+        (res_c, outs_c, cmd, _), (res_p, outs_p, cmd_p, _) = list(ex.map(go, [(dc, contract_names), (dp, plain_names)]))
     rows = []
     for h in names:
+        is_c = h in contract_names
+        res, outs, d = (res_c, outs_c, dc) if is_c else (res_p, outs_p, dp)
         r = res.get(h) or {"harness": h, "status": "undecided", "failed_checks": [], "time_s": None, "checks": None, "covers": None,
                            "raw_tail": outs.get("codegen", "")[-2500:], "wall_s": None}
-        rows.append({"name": h, "kind": spec.HARNESSES[h][1], "result": r, "output": outs.get(h, "")})
-    return rows, report, cmd
+        rows.append({"name": h, "kind": spec.HARNESSES[h][1], "result": r, "output": outs.get(h, ""), "crate": d})
+    return rows, report, cmd or cmd_p
+
+
+def playback_layer_b(row):
+    """concrete playback of a failed plain harness: Kani writes the witness as a unit test into the scratch copy, which is then
+    executed natively against the real lexgen_util functions (cargo kani playback)"""
+    import subprocess
+    env = dict(os.environ, CARGO_NET_OFFLINE="true", CARGO_TARGET_DIR=os.path.join(row["crate"], "target"))
+    h = row["name"]
+    try:
+        subprocess.run(["cargo", "kani", "-Z", "function-contracts", "-Z", "stubbing", "-Z", "concrete-playback", "--concrete-playback=inplace",
+                        "--output-format", "terse", "--harness", h], cwd=row["crate"], capture_output=True, text=True, env=env, timeout=1800)
+        src = open(os.path.join(row["crate"], "src", "lib.rs")).read()
+        # one unit test per failed check AND per satisfied cover: pick the ones generated for assertions
+        tests, blocks = [], []
+        for m in re.finditer(r"/// Check for `(\w+)`: ([^\n]*)\n", src):
+            if m.group(1) == "cover":
+                continue
+            t0 = src.find("#[test]", m.end())
+            t1 = src.find("\n    }\n", t0)
+            nm = re.search(r"fn (kani_concrete_playback_\w+)\(\)", src[t0:t1])
+            if t0 < 0 or t1 < 0 or not nm:
+                continue
+            tests.append(nm.group(1))
+            blocks.append("// witness for: %s\n%s" % (m.group(2), src[t0:t1 + 6]))
+        if not tests:
+            return None
+        p = subprocess.run(["cargo", "kani", "playback", "-Z", "concrete-playback", "--lib", "--", tests[0]], cwd=row["crate"], capture_output=True, text=True,
+                           env=env, timeout=900)
+        out = "\n".join(ln for ln in (p.stdout + p.stderr).split("\n") if re.match(r"^(test |thread |assertion|---- |failures|\s+left|\s+right|running|test result)", ln) or "panicked" in ln)
+        return "witness (values of kani::any() in call order):\n%s\n\nnative run of the witness against the real functions (cargo kani playback):\n%s" % (blocks[0], out[-2500:])
+    except Exception as e:  # noqa
+        return None
 
 
 def main(prop, cfg):
@@ -53,14 +101,27 @@ def main(prop, cfg):
             violations += 1
         elif r["status"] == "undecided":
             undecided.append("verus unit %s: %s" % (r["unit"], r.get("reason", "")))
-    # ---------------- layer B
+    # ---------------- layer B and layer C run concurrently
+    import concurrent.futures as cf
     brows, breport, bcmd = [], [], None
-    if cfg.get("layer_b", True):
+    defs = D.by_prop(prop, C.TIER) if cfg.get("layer_c", True) else []
+
+    def do_b():
+        if not cfg.get("layer_b", True):
+            return [], [], None
+        spec = K.load_spec("lexgen_util")
+        return run_layer_b(prop, spec)
+
+    def do_c():
+        return LC.run_defs(defs, C.TIER, timeout=cfg.get("timeout", 2400)) if defs else []
+
+    with cf.ThreadPoolExecutor(max_workers=2) as ex:
+        fb, fc = ex.submit(do_b), ex.submit(do_c)
         try:
-            spec = K.load_spec("lexgen_util")
-            brows, breport, bcmd = run_layer_b(prop, spec)
+            brows, breport, bcmd = fb.result()
         except K.SpliceError as e:
             undecided.append("layer B splice: %s" % e)
+        crows = fc.result()
     contract_fail = [r for r in brows if r["kind"] == "contract" and r["result"]["status"] == "fail"]
     for r in brows:
         v = r["result"]
@@ -68,10 +129,12 @@ def main(prop, cfg):
             undecided.append("kani harness %s: %s" % (r["name"], (v.get("raw_tail") or "")[-300:].replace("\n", " ")))
         elif v["status"] == "fail" and r["kind"] != "contract":
             ob = "lexgen_util::%s [%s]" % (r["name"], "; ".join(f["check"] for f in v["failed_checks"])[:300])
-            body = "Kani harness %s (fully symbolic lexer state, loop-free: complete) fails on the lexgen_util of the snapshot.\n\nfailed checks:\n%s\n\n---- Kani output (tail) ----\n%s" % (
-                r["name"], "\n".join("  %s  (%s:%s)" % (f["check"], f.get("file", ""), f.get("line", "")) for f in v["failed_checks"]), r["output"][-5000:])
+            pb = playback_layer_b(r)
+            body = "Kani harness %s (fully symbolic lexer state, loop-free: complete) fails on the lexgen_util of the snapshot.\n\nfailed checks:\n%s\n\n%s\n\n---- Kani output (tail) ----\n%s" % (
+                r["name"], "\n".join("  %s  (%s:%s)" % (f["check"], f.get("file", ""), f.get("line", "")) for f in v["failed_checks"]),
+                pb or "no concrete playback available", r["output"][-3000:])
             path = C.write_replay(prop, ob, body)
-            lines.append("VIOLATION property=%s replay=%s obligation=%s no-failing-input-found" % (prop, path, re.sub(r"\s+", "_", ob)[:200]))
+            lines.append("VIOLATION property=%s replay=%s obligation=%s%s" % (prop, path, re.sub(r"\s+", "_", ob)[:200], "" if pb else " no-failing-input-found"))
             violations += 1
     # a failing full contract whose per-property conjunct harnesses all pass belongs to another property
     if contract_fail:
@@ -80,9 +143,7 @@ def main(prop, cfg):
             if not own_fail:
                 notes.append("NOTE contract harness %s fails on a conjunct that this property's own obligations do not include (%s)" % (
                     r["name"], "; ".join(f["check"] for f in r["result"]["failed_checks"])[:200]))
-    # ---------------- layer C
-    defs = D.by_prop(prop, C.TIER) if cfg.get("layer_c", True) else []
-    crows = LC.run_defs(defs, C.TIER, timeout=cfg.get("timeout", 2400)) if defs else []
+    # ---------------- layer C results
     c_ok = 0
     samples = []
     for row in crows:
